@@ -180,7 +180,9 @@ def run_config(chk, facts, cfg):
             chk.ob("C01-f", f"static {r['path']} immutable", r["freeze"] and not r["mutable"], key=f"static|{r['path']}", file=r["file"], line=r["line"],
                    detail="state that survives a call makes observations depend on history")
     FORBID = re.compile(r"^(std::time::|std::env::|std::thread::|rand::|std::process::|std::fs::|std::net::|std::hash::random::|"
-                        r"<std::hash::random::|core::fmt::Pointer|<\*const T as core::fmt::Pointer)")
+                        r"<std::hash::random::|core::fmt::Pointer|<\*const T as core::fmt::Pointer|"
+                        r"core::slice::<impl \[T\]>::align_to(_mut)?$|bytemuck::(internal::)?(try_)?pod_align_to(_mut)?$|"
+                        r"core::ptr::(const_ptr|mut_ptr)::<impl \*(const|mut) T>::(align_offset|is_aligned|is_aligned_to)$)")
     ncalls = 0
     for c in ("font_types", RF):
         for b in facts.all_bodies(c):
@@ -188,7 +190,7 @@ def run_config(chk, facts, cfg):
                 ncalls += 1
                 if FORBID.search(t.callee):
                     chk.ob("C01-f", f"{b.path} calls {t.callee}", False, key=f"forbid|{b.path}|{t.callee}", file=b.file, line=t.line, fn=b.path,
-                           detail="an observation of time / environment / randomness / thread identity in a parsing path")
+                           detail="an observation of time / environment / randomness / thread identity / memory address alignment in a parsing path")
     chk.floor("C01-f", "calls scanned in font-types + read-fonts", ncalls, 20000 if cfg == "union" else 5000)
     from ..ptrtaint import PtrTaint
     pt = PtrTaint(facts, list(facts.crates))
